@@ -104,7 +104,7 @@ func (fr *FnRun) checkSite(st *State, site ssa.Instruction, desc string) {
 		}
 		fr.bindLocalsAt(st, vars, site)
 		// arg0, arg1, ...: the arguments of the call (for a statically dispatched method the receiver
-		// is arg0; for an interface call the receiver is not among them)
+		// is arg0; for an interface call arg0 is the receiver value as well)
 		for ai, av := range fr.siteArgs {
 			vars[fmt.Sprintf("arg%d", ai)] = av
 		}
